@@ -22,6 +22,8 @@ def _real():
         _REAL['discrete'] = Env.DiscreteWorld(Model(), 3, 2, 4)
         _REAL['discrete_wrap'] = Env.DiscreteWorld(Model(), 2, 3, 2, wrap_env=True)
         _REAL['discrete_flat'] = Env.DiscreteWorld(Model(), 3, 0, 2)
+        _REAL['discrete_nox'] = Env.DiscreteWorld(Model(), 0, 4, 3)          # a generic grid without an x axis
+        _REAL['discrete_nox_wrap'] = Env.DiscreteWorld(Model(), 0, 3, 5, wrap_env=True)
 
 
 _real()
@@ -40,6 +42,12 @@ def _world(m, kind, w, h, d, wrap):
         env.set_model(m)
     m.environment = env
     return env
+
+
+def _offset(env, kind):
+    """largest legal coordinate = extent - offset: grid worlds index cells 0..extent-1, continuous worlds span 0..extent.
+    Decided by the KIND of world, never read back from the implementation."""
+    return 1 if kind == 'gridlike' or isinstance(env, Env.DiscreteWorld) else 0
 
 
 def _place(m, env, name, x, y, z):
@@ -79,7 +87,7 @@ def move_int(w: int, h: int, d: int, x: int, y: int, z: int, dx: int, dy: int, d
     kind, wrap = hx.P['world'], hx.P['wrap']
     m = Model(logger=NULL_LOGGER)
     env = _world(m, kind, w, h, d, wrap)
-    off = env._index_offset
+    off = _offset(env, kind)
     if not _inside(env, off, x, y, z):
         return hx.end(True)                  # I8 is the precondition
     a = _place(m, env, "a", x, y, z)
@@ -123,7 +131,7 @@ def move_to_int(w: int, h: int, d: int, x: int, y: int, z: int, nx: int, ny: int
     kind = hx.P['world']
     m = Model(logger=NULL_LOGGER)
     env = _world(m, kind, w, h, d, False)
-    off = env._index_offset
+    off = _offset(env, kind)
     if not _inside(env, off, x, y, z):
         return hx.end(True)
     a = _place(m, env, "a", x, y, z)
@@ -175,7 +183,7 @@ def place_int(w: int, h: int, d: int, x: int, y: int, z: int, x2: int, y2: int) 
     kind = hx.P['world']
     m = Model(logger=NULL_LOGGER)
     env = _world(m, kind, w, h, d, False)
-    off = env._index_offset
+    off = _offset(env, kind)
     from ECAgent.Core import Environment
     a = Environment(m, id="a") if hx.P.get('nested') else Agent("a", m)     # environments are agents too (empty here)
     alias = hx.P.get('alias', False)
@@ -230,7 +238,7 @@ def history(x: int, y: int, a0: int, b0: int, a1: int, b1: int, a2: int, b2: int
     kind, ops = hx.P['world'], hx.P['ops']
     m = Model(logger=NULL_LOGGER)
     env = _world(m, kind, 4, 3, 0, hx.P.get('wrap', False))
-    off = env._index_offset
+    off = _offset(env, kind)
     ags = [Agent("p", m), Agent("q", m)]
     res = [False, False]
     args = [(a0, b0), (a1, b1), (a2, b2), (a3, b3)]
@@ -341,9 +349,9 @@ def obligations(tier):
     enc = (SpaceWorld.move, SpaceWorld.move_to, SpaceWorld.add_agent, SpaceWorld.remove_agent)
     sym = [("space", False), ("space", True), ("gridlike", False), ("gridlike", True)]
     real = [("line", False), ("line_wrap", True), ("grid", False), ("grid_wrap", True), ("discrete", False), ("discrete_wrap", True),
-            ("discrete_flat", False)]
+            ("discrete_flat", False), ("discrete_nox", False), ("discrete_nox_wrap", True)]
     if tier == "quick":
-        real = [("line_wrap", True), ("grid", False), ("discrete_flat", False)]
+        real = [("line_wrap", True), ("grid", False), ("discrete_flat", False), ("discrete_nox", False), ("discrete_nox_wrap", True)]
     k = 3 if tier == "quick" else 4
     obs = [
         X("move_int", move_int, parts=[{"world": w, "wrap": wr} for w, wr in sym + real], labels=("leaves_range", "stays_in_range"),
